@@ -49,43 +49,57 @@ MANIFEST = {
 # robust batched execution of cases in the simulator (a hang or an exception inside an MPyC
 # coroutine leaves the party PENDING; the batch is then resumed after the offending case)
 
+ARITY = 5
+
+
 class Watchdog(Exception):
     pass
 
 
-class WatchedFifo:
-    """FIFO delivery; raises Watchdog when no case has completed for `per_case_s` seconds."""
+ROUNDS_PER_CASE = 100000     # simulator rounds (event-loop spins + delivery calls) without a completed case => hang;
+                             # load-independent; ordinary cases need < 6000 rounds (maximum observed is recorded in evidence)
+ROUND_STATS = {'max_rounds_per_case': 0}
 
-    def __init__(self, per_case_s, errs):
+
+class WatchedFifo:
+    """FIFO delivery; raises Watchdog when no case has completed for ROUNDS_PER_CASE simulator rounds (a deterministic
+    measure: one round = one spin of the event loop plus one delivery call), or at once when an exception escaped an
+    MPyC coroutine (the current case can then never complete)."""
+
+    def __init__(self, errs, limit=None):
         from lib.sim import Fifo
         self.fifo = Fifo()
-        self.per_case_s = per_case_s
         self.errs = errs
-        self.last = time.time()
+        self.limit = limit or ROUNDS_PER_CASE
         self.n = 0
+        self.last_n = 0
 
     def tick(self):
-        self.last = time.time()
+        d = self.n - self.last_n
+        if d > ROUND_STATS['max_rounds_per_case']:
+            ROUND_STATS['max_rounds_per_case'] = d
+        self.last_n = self.n
 
     def deliver(self, net):
         self.n += 1
         if self.errs and any('CancelledError' not in e and 'InvalidState' not in e for e in self.errs):
-            raise Watchdog()      # an exception escaped an MPyC coroutine: the current case never completes
-        if self.n % 64 == 0 and time.time() - self.last > self.per_case_s:
+            raise Watchdog()
+        if self.n - self.last_n > self.limit:
             raise Watchdog()
         return self.fifo.deliver(net)
 
 
-def run_cases(ctx, m, t, no_prss, cases, case_coro, seed, per_case_s=3.0, want_log=False):
-    """cases: list of JSON-able case descriptions; case_coro(mpc, mods, pid, state, case) -> result.
-    Returns list of per-case results: value | ('EXC', name) | ('HANG', info) | ('DIVERGE', per-party values)."""
+def run_batch(ctx, m, t, no_prss, cases, case_coro, seed, want_log=False, arity3=ARITY):
+    """One pass: cases run in order in one simulator; at the first case that does not complete (hang / escaped
+    exception) that simulator is discarded and the rest continues in a fresh one."""
     from lib.sim import Sim
     results = [None] * len(cases)
     logs = []
+    incomplete = []
     i = 0
     restarts = 0
     while i < len(cases):
-        sim = Sim(m, t, no_prss=no_prss, seed=seed, track_tasks=False)
+        sim = Sim(m, t, no_prss=no_prss, seed=seed, track_tasks=False, log_messages=want_log)
         errs = []
         sim.loop.set_exception_handler(lambda loop, c: errs.append(repr(c.get('exception'))[:200]))
         try:
@@ -94,23 +108,24 @@ def run_cases(ctx, m, t, no_prss, cases, case_coro, seed, per_case_s=3.0, want_l
                 raise RuntimeError('simulator start failed')
             prog_res = [[None] * len(cases) for _ in range(m)]
             start = i
-            pol = WatchedFifo(per_case_s, errs)
+            pol = WatchedFifo(errs)
 
             async def prog(mpc, mods, pid, start=start, prog_res=prog_res, pol=pol):
                 state = {}
                 for j in range(start, len(cases)):
                     try:
-                        r = await case_coro(mpc, mods, pid, state, cases[j])
+                        r = await (case_coro(mpc, mods, pid, state, cases[j]) if arity3 == 5 else case_coro(mpc, mods, pid, cases[j]))
                     except Exception as e:  # synchronous exceptions (asserts, TypeError ...)
                         r = ('EXC', type(e).__name__)
                     prog_res[pid][j] = ('ok', r)
-                    pol.tick()
+                    if pid == m - 1 or m == 1:
+                        pol.tick()
                 return True
             try:
-                sim.run(prog, pol, idle_limit=20000 if m > 1 else 10**12)
-                timed_out = False
+                sim.run(prog, pol, idle_limit=50000 if m > 1 else 10**15, max_rounds=10**15)
+                stopped = 'idle'
             except Watchdog:
-                timed_out = True
+                stopped = 'rounds'
             if want_log:
                 logs.append([[(d, peer, size) for (d, peer, pc, size) in sim.msglog[k]] for k in range(m)])
             done = True
@@ -122,12 +137,13 @@ def run_cases(ctx, m, t, no_prss, cases, case_coro, seed, per_case_s=3.0, want_l
                     i = j + 1
                 else:
                     exc = [e for e in errs if 'CancelledError' not in e and 'InvalidState' not in e]
-                    results[j] = ('EXC', exc[0].split('(')[0]) if exc else ('HANG', 'watchdog' if timed_out else 'idle')
+                    results[j] = ('EXC', exc[0].split('(')[0]) if exc else ('HANG', stopped)
+                    incomplete.append(j)
                     i = j + 1
                     done = False
                     restarts += 1
                     break
-            if done and not timed_out:
+            if done:
                 try:
                     sim.shutdown()
                 except Exception:
@@ -135,6 +151,27 @@ def run_cases(ctx, m, t, no_prss, cases, case_coro, seed, per_case_s=3.0, want_l
         finally:
             sim.close()
     ctx.extra['sim_restarts'] = ctx.extra.get('sim_restarts', 0) + restarts
+    return results, logs, incomplete
+
+
+def run_cases(ctx, m, t, no_prss, cases, case_coro, seed, want_log=False, isolated=()):
+    """cases: list of JSON-able case descriptions.  Returns per-case results: value | ('EXC', name) | ('HANG', how) |
+    ('DIVERGE', per-party values).  Cases whose index is in `isolated` (predicted not to terminate) run alone in their own
+    simulator.  Every case that did not complete (HANG / escaped EXC) in a shared simulator is re-run once alone in a
+    fresh simulator and the outcome of that isolated run is what is reported."""
+    isolated = set(isolated)
+    shared = [j for j in range(len(cases)) if j not in isolated]
+    results = [None] * len(cases)
+    res, logs, inc = run_batch(ctx, m, t, no_prss, [cases[j] for j in shared], case_coro, seed, want_log)
+    for j, r in zip(shared, res):
+        results[j] = r
+    redo = [] if want_log else [shared[q] for q in inc] + [j for j in shared if isinstance(results[j], tuple) and results[j][:1] == ('DIVERGE',)]
+    for j in sorted(isolated) + redo:
+        results[j] = run_batch(ctx, m, t, no_prss, [cases[j]], case_coro, seed)[0][0]
+    if redo:
+        ctx.extra['cases_rerun_in_isolation'] = ctx.extra.get('cases_rerun_in_isolation', 0) + len(redo)
+    ctx.extra['max_rounds_per_case'] = ROUND_STATS['max_rounds_per_case']
+    ctx.extra['hang_limit_rounds'] = ROUNDS_PER_CASE
     return (results, logs) if want_log else results
 
 
@@ -687,7 +724,7 @@ def run(ctx):
 
     for (p, m, t, no_prss, cases, exhaustive) in plan:
         t1 = time.time()
-        todo, meta = [], []
+        todo, meta, iso = [], [], []
         for c in cases:
             (pi, a, b, op, k) = c
             arity2 = [o for o in OPS if o[0] == op][0][1] == 2
@@ -710,16 +747,18 @@ def run(ctx):
                     skip(('known failing class %s' % cls) if cls and cls != 'gcdext' else
                          'small-field region (a padded length >= p): operation may not terminate')
                     continue
+            if costly:
+                iso.append(len(todo))      # predicted not to complete: runs alone in its own simulator
             todo.append((pi, a, bb, op, k))
             meta.append((want, cls, sf))
         coro = make_case_coro(p)
         seed = ctx.seed + p + 7 * m
-        res = run_cases(ctx, m, t, no_prss, todo, coro, seed=seed)
+        res = run_cases(ctx, m, t, no_prss, todo, coro, seed=seed, isolated=iso)
         cfg = 'm=%d%s' % (m, ' no-prss' if no_prss else '')
         for c, (want, cls, sf), got in zip(todo, meta, res):
             (pi, a, b, op, k) = c
             v = judge(p, cfg, c, want, cls, sf, got)
-            if v[0] == 'viol' and confirmations[0] < 40:
+            if v[0] == 'viol' and confirmations[0] < 200 and (cls is None or cls == 'gcdext'):
                 # confirm in isolation (fresh simulator): an earlier exception in the same batch must not be blamed on this case
                 confirmations[0] += 1
                 got = run_cases(ctx, m, t, no_prss, [c], coro, seed=seed)[0]
